@@ -283,7 +283,7 @@ def main():
     emit('conf_consts', gen_consts,
          "theorem conf_consts_eq (ep en : A) : GenMV.c_eo ep en = Conf.eo ep en ∧ GenMV.c_einf ep en = Conf.einf ep en "
          "∧ GenMV.c_E0 ep en = Conf.E0 ep en := by\n"
-         "  refine ⟨?_, ?_, ?_⟩ <;> simp only [GenMV.c_eo, GenMV.c_einf, GenMV.c_E0, Conf.eo, Conf.einf, Conf.E0] <;> mv_fin\n")
+         "  refine ⟨?_, ?_, ?_⟩ <;> simp only [GenMV.c_eo, GenMV.c_einf, GenMV.c_E0, Conf.eo, Conf.einf, Conf.E0] <;> (mv_nf; mv_fin)\n")
 
     # ---- ConformalLayout.up
     def gen_up():
